@@ -1305,6 +1305,13 @@ def try_like(scrut, good, good_body, bad, bad_body, lets, depth=40):
     g, b = _variant_pat(good), _variant_pat(bad)
     if not g or not b or (g[0], b[0]) not in (("Ok", "Err"), ("Some", "None")):
         return None
+    if (g[0], b[0]) == ("Some", "None") and good_body is not None and g[1] not in (None, "()") and _returned(bad_body) is None and _inlinable(bad_body):
+        gb2 = strip(good_body)
+        if gb2.get("k") == "Adt" and gb2.get("variant") == "Some" and len(gb2["fields"]) == 1:
+            gv = strip(gb2["fields"][0]["expr"])
+            if gv.get("k") in ("Var", "Upvar") and gv["name"] == g[1]:
+                # match X { Some(v) => Some(v), None => D }  ==  X.or(D)
+                return ("call", "core::option::Option::or", (sx(scrut, lets, depth - 1), sx(bad_body, lets, depth - 1)))
     if good_body is not None:
         gb = strip(good_body)
         if not ((gb.get("k") in ("Var", "Upvar") and gb["name"] == g[1]) or (g[1] in ("()", None) and _is_unit(gb))):
